@@ -104,6 +104,10 @@ pub struct Case {
     /// may be dialed any more
     #[serde(default)]
     pub epilogue: Option<u8>,
+    /// networks that are in no table entry connect to the dialer (inbound) before the table is
+    /// filled and stay connected: connections unrelated to the table must not change who is dialed
+    #[serde(default)]
+    pub strangers: u8,
 }
 
 struct Target {
@@ -178,6 +182,27 @@ pub fn check(case: &Case, obs: &mut Obs) -> Result<(), Fail> {
         // ---- the dialer; entries are in its table before its first connectivity check
         let n = sim.node_with(ns)?;
         let (mut rx, _) = n.net.subscribe().map_err(|e| Fail::Inconclusive(e.to_string()))?;
+        let mut stranger_nodes = Vec::new();
+        for i in 0..(case.strangers.min(3) as usize) {
+            let mut s = NodeSpec::new(1);
+            s.addr = SocketAddr::new(std::net::IpAddr::V4(std::net::Ipv4Addr::new(10, 2, 0, i as u8 + 1)), 7000);
+            s.key = key_seed(8900 + i as u64);
+            let node = sim.node_with(s)?;
+            match within(10_000, node.net.connect(n.addr())).await {
+                Ok(Ok(_)) => {}
+                other => return Err(Fail::Inconclusive(format!("an unrelated network could not connect to the dialer: {:?}", other.map(|r| r.map(|_| ()).map_err(|e| e.to_string()))))),
+            }
+            stranger_nodes.push(node);
+        }
+        let stranger_ids: Vec<PeerId> = stranger_nodes.iter().map(|s| s.net.peer_id()).collect();
+        if !stranger_ids.is_empty() {
+            for _ in 0..100 {
+                if stranger_ids.iter().all(|p| n.net.peers().contains(p)) { break; }
+                sleep_ms(10).await;
+            }
+        }
+        // everything below is relative to the moment the table is filled
+        let t_base = sim.now_ms();
         for (e, ent) in entries.iter().enumerate() {
             let affinity = match ent.affinity % 3 { 0 => PeerAffinity::High, 1 => PeerAffinity::Allowed, _ => PeerAffinity::Never };
             let address = (0..ent.addrs.len().min(3)).map(|a| addr_of(e, a).into()).collect();
@@ -376,7 +401,7 @@ pub fn check(case: &Case, obs: &mut Obs) -> Result<(), Fail> {
                 continue;
             }
             // becoming eligible with a clean slate: at start, and after each loss that follows a success
-            let mut moments: Vec<u64> = vec![0];
+            let mut moments: Vec<u64> = vec![t_base];
             for (te, ev) in &evs {
                 if matches!(ev, PeerEvent::LostPeer(p, _) if *p == id) { moments.push(*te); }
             }
@@ -398,7 +423,7 @@ pub fn check(case: &Case, obs: &mut Obs) -> Result<(), Fail> {
         }
         // never connected to anything that is not a High entry's identity reached at a live address
         for p in n.net.peers() {
-            let ok = entries.iter().enumerate().any(|(e, ent)| entry_id(e) == p && !ent.is_self);
+            let ok = entries.iter().enumerate().any(|(e, ent)| entry_id(e) == p && !ent.is_self) || stranger_ids.contains(&p);
             vensure!(ok, "c13:connected-to-unknown", "the dialer lists {p}, which is in no table entry");
         }
         let _ = schedule_end;
@@ -419,7 +444,8 @@ pub fn check(case: &Case, obs: &mut Obs) -> Result<(), Fail> {
                 if a.src != n.addr() || a.dst == explicit_dead || a.t_ms <= t_clear + 5 { continue; }
                 vfail!("c13:dialed-removed-peer", "the table was emptied at {t_clear} ms ({}); at {} ms the dialer still started a connection attempt to {}", ["remove_all", "remove of every entry", "every entry set to Never"][how as usize % 3], a.t_ms, a.dst);
             }
-            vensure!(n.net.peers().is_empty(), "c13:dialed-removed-peer", "after the table was emptied and every target disconnected the dialer, it lists {:?}", n.net.peers());
+            let left: Vec<PeerId> = n.net.peers().into_iter().filter(|p| !stranger_ids.contains(p)).collect();
+            vensure!(left.is_empty(), "c13:dialed-removed-peer", "after the table was emptied and every target disconnected the dialer, it lists {:?}", left);
             obs.label("epilogue:table-emptied");
         }
         obs.evals(atts.len() as u64);
@@ -428,6 +454,8 @@ pub fn check(case: &Case, obs: &mut Obs) -> Result<(), Fail> {
         if multi_addr { obs.label("multi-address-peer-dialed"); }
         if cap_binding { obs.label("cap-was-binding"); }
         if !explicit.is_empty() { obs.label("explicit-dials-in-flight"); }
+        if !stranger_ids.is_empty() { obs.label("unrelated-connections-present"); }
+        drop(stranger_nodes);
         if streak2 || multi_addr || cap_binding {
             obs.nontrivial(&case);
         }
@@ -440,7 +468,7 @@ impl Part for Schedules {
     type Case = Case;
     fn name(&self) -> &'static str { "schedules" }
     fn rule(&self) -> &'static str {
-        "a dialer with a known-peer table (1-5 entries: affinity High/Allowed/Never, 0-3 addresses each of kind live / dead / answered by another identity, optionally an entry for the dialer itself), interval 0.2-10 s, backoff step 0.1-20 s, max 1-120 s, connect timeout 0.5-10 s, in-flight cap 1-5 or 100, tick jitter pinned to 0 (hook H2); schedules of targets stopping, starting, kicking the dialer, and explicit dials to a dead address, followed by a fault-free tail; observed black-box through the fabric's log of new connection attempts and the dialer's events; oracle: P1 attempts only go to High, non-self, not-connected peers; P2 the i-th attempt of a failure streak uses address i mod n and the rotation restarts after a success; P3 after k consecutive failures the next attempt comes no sooner than the failed attempt's duration + min(max, k*step); P4 a High peer whose first address answers is connected within one interval of becoming eligible, and after the tail every High peer with a live address is connected; P5 no background dial starts while the number of attempts in flight (explicit ones included) is at the cap; non-trivial = >=2 failures then success, a multi-address peer, or a tick at which the cap was binding; distinct by case"
+        "a dialer with a known-peer table (1-5 entries: affinity High/Allowed/Never, 0-3 addresses each of kind live / dead / answered by another identity, optionally an entry for the dialer itself), interval 0.2-10 s, backoff step 0.1-20 s, max 1-120 s, connect timeout 0.5-10 s, in-flight cap 1-5 or 100, tick jitter pinned to 0 (hook H2), 0-3 networks that are in no table entry connected to the dialer throughout; schedules of targets stopping, starting, kicking the dialer, and explicit dials to a dead address, followed by a fault-free tail; observed black-box through the fabric's log of new connection attempts and the dialer's events; oracle: P1 attempts only go to High, non-self, not-connected peers; P2 the i-th attempt of a failure streak uses address i mod n and the rotation restarts after a success; P3 after k consecutive failures the next attempt comes no sooner than the failed attempt's duration + min(max, k*step); P4 a High peer whose first address answers is connected within one interval of becoming eligible, and after the tail every High peer with a live address is connected; P5 no background dial starts while the number of attempts in flight (explicit ones included) is at the cap; non-trivial = >=2 failures then success, a multi-address peer, or a tick at which the cap was binding; distinct by case"
     }
     fn strategy(&self, _t: Tier) -> BoxedStrategy<Case> {
         let kind = prop_oneof![3 => Just(AddrKind::Live), 3 => Just(AddrKind::Dead), 1 => Just(AddrKind::WrongIdentity)];
@@ -448,8 +476,8 @@ impl Part for Schedules {
             .prop_map(|(affinity, addrs, is_self)| Entry { affinity, addrs, is_self });
         let act = prop_oneof![3 => (0u8..5).prop_map(Action::Stop), 3 => (0u8..5).prop_map(Action::Start), 2 => (0u8..5).prop_map(Action::Kick), 2 => Just(Action::ExplicitDialDead)];
         (200u16..10_000, 100u16..20_000, 1_000u32..120_000, 500u16..10_000, prop_oneof![3 => 1u8..6, 1 => Just(100u8)], prop::collection::vec(entry, 1..6),
-         prop::collection::vec((prop_oneof![0u32..2_000, 2_000u32..60_000], act), 0..10), prop::option::weighted(0.4, 0u8..3))
-            .prop_map(|(interval_ms, step_ms, max_ms, connect_timeout_ms, cap, entries, schedule, epilogue)| Case { interval_ms, step_ms, max_ms, connect_timeout_ms, cap, entries, schedule, epilogue })
+         prop::collection::vec((prop_oneof![0u32..2_000, 2_000u32..60_000], act), 0..10), prop::option::weighted(0.4, 0u8..3), prop_oneof![3 => Just(0u8), 2 => 1u8..4])
+            .prop_map(|(interval_ms, step_ms, max_ms, connect_timeout_ms, cap, entries, schedule, epilogue, strangers)| Case { interval_ms, step_ms, max_ms, connect_timeout_ms, cap, entries, schedule, epilogue, strangers })
             .boxed()
     }
     fn run(&self, c: &Case, obs: &mut Obs) -> Result<(), Fail> { check(c, obs) }
